@@ -15,6 +15,7 @@ import (
 	"github.com/innovationb1ue/RedisGO/config"
 	"github.com/innovationb1ue/RedisGO/logger"
 	"github.com/innovationb1ue/RedisGO/memdb"
+	"github.com/innovationb1ue/RedisGO/resp"
 	"github.com/innovationb1ue/RedisGO/server"
 	"verif/harness/respcodec"
 )
@@ -154,6 +155,40 @@ func (s *Srv) ExecConn(argv [][]byte, conn net.Conn) (rep Reply) {
 		return Reply{K: "err", V: []int{}, A: []Reply{}, E: "OTHER", Msg: "gonil", NilRes: true}
 	}
 	return Canon(res.ToBytes())
+}
+
+// ExecDeferred runs the executor now and returns a function that serialises the reply later - what a connection
+// handler does: the executor returns (and releases its locks), THEN the reply is turned into bytes and written. A reply
+// that still references stored memory can be changed by another command in between.
+func (s *Srv) ExecDeferred(argv [][]byte) (serialise func() Reply) {
+	var early *Reply
+	var res resp.RedisData
+	func() {
+		defer func() {
+			if r := recover(); r != nil {
+				early = &Reply{K: "panic", V: []int{}, A: []Reply{}, E: panicSite(), Msg: fmt.Sprint(r)}
+			}
+		}()
+		fresh := make([][]byte, len(argv))
+		for i, a := range argv {
+			fresh[i] = append([]byte{}, a...)
+		}
+		res = s.Mgr.ExecCommand(s.Ctx, fresh, nil)
+	}()
+	return func() (rep Reply) {
+		if early != nil {
+			return *early
+		}
+		if res == nil {
+			return Reply{K: "err", V: []int{}, A: []Reply{}, E: "OTHER", Msg: "gonil", NilRes: true}
+		}
+		defer func() {
+			if r := recover(); r != nil {
+				rep = Reply{K: "panic", V: []int{}, A: []Reply{}, E: panicSite(), Msg: fmt.Sprint(r)}
+			}
+		}()
+		return Canon(res.ToBytes())
+	}
 }
 
 func panicSite() string {
